@@ -597,6 +597,13 @@ pub fn f_descs(buf: &[u8]) -> String {
     }
 }
 
+/// `CoreDescriptors::from_bytes` called directly (public API; the iterator checks the lengths before
+/// it calls it, so the two error results for short buffers are only reachable this way)
+pub fn op_descfb(buf: &[u8]) -> String {
+    use mpeg2ts_reader::descriptor::Descriptor;
+    f_desc_item(CoreDescriptors::from_bytes(buf), buf)
+}
+
 pub fn op_desc(buf: &[u8]) -> String {
     f_descs(buf)
 }
